@@ -1003,6 +1003,10 @@ impl Transaction {
         // or consensus.
         //
         if self.transaction_type == TransactionType::SPV {
+            if self.to.iter().any(|slip| slip.amount > 0) {
+                error!("ERROR: SPV transaction creates outputs");
+                return false;
+            }
             if self.total_fees > 0 {
                 error!("ERROR: SPV transaction contains invalid hash");
                 return false;
